@@ -63,4 +63,9 @@ CHECKS['C20'] = dict(
     note='A failing underlying Write is modelled as writing nothing. Trusted: Coq kernel, extraction, driver, harness.',
     technique='Coq proof (prefix-freeness of frame layouts, parser inversion, induction over entry lists) + extracted-model differential over every cut offset')
 
+CHECKS['C19'] = dict(
+    text='Kernel-checked: Atoi(Itoa z) = z on the whole int64 range (decimal rendering/parsing by induction); for an ordinary enum whose generated maps are consistent and whose names are not numerals, EVERY 64-bit value survives MarshalText/UnmarshalText; those hypotheses hold of every ordinary enum of the shipped dialects, and for every shipped bitmask enum zero, every constant and the union of all constants round-trip except instances of the recorded finding (both vm_compute obligations over the enum tables regenerated from the sources by go/ast on every run, loop bound of the bitmask MarshalText included). Tied to the generated methods by a differential over all enum types (constants, flag combinations, unnamed values over the full uint64 range, rejection strings).',
+    note='The round trip of EVERY combination of flags of a bitmask enum is exercised by random combinations, not yet proved generically. Known finding F12 (RALLY_FLAGS ALT_FRAME=24). Trusted: Coq kernel, vm_compute, go/ast table translator, extraction, driver, harness.',
+    technique='Coq proof (decimal round trip, association-map lemmas, vm_compute over regenerated enum tables) + extracted-model differential over all enum types')
+
 NOT_APPLICABLE = [{'property_id': p, 'reason': PENDING} for p in ALL if p not in CHECKS]
